@@ -265,7 +265,10 @@ void run_reset(uint64_t junk_seed, ReusePolicy reuse, int redzone) {
     lib_statics_reset();
     arenas_reset();
     g.reuse = reuse; g.junk_seed = junk_seed; g.redzone = redzone < 16 ? 16 : redzone;
+    g.align8 = ((junk_seed >> 29) & 3) == 0;   // one run in four: blocks at 8 (mod 16)
     g.blocks.clear(); g_blk_at.clear(); g_free_by_size.clear();
+    for (auto& h : g_huge) if (h.live) madvise((void*)(h.addr & ~(uintptr_t)4095), (h.size + 8191) & ~(size_t)4095, MADV_DONTNEED);
+    g_huge.clear(); g.allow_huge = false;
     g.hs = HeapStats(); g.serial = 0; g.live_blocks = 0;
     g.violations.clear(); g.abort_run = false;
     g.ev_hash = 1469598103934665603ull; g.ev_count = 0;
@@ -317,6 +320,20 @@ void* heap_malloc(int mgr, size_t size, bool zero, const char* what) {
     }
     Arena& a = g_arena[A_HEAP];
     size_t rz = (size_t)g.redzone;
+    if (g.allow_huge && counted && size > (a.size >> 2) && size <= (6ull << 30)) {
+        // sparse grant: address space only, pages appear when touched and are dropped again on release
+        static uintptr_t region = 0, used = 0; const size_t region_size = 64ull << 30;
+        if (!region) { void* r = mmap(nullptr, region_size, PROT_READ | PROT_WRITE, MAP_PRIVATE | MAP_ANONYMOUS | MAP_NORESERVE, -1, 0); if (r != MAP_FAILED) region = (uintptr_t)r; }
+        size_t need = (size + 2 * 4096 + 4095) & ~(size_t)4095;
+        if (region && g_huge.empty()) used = 0;                     // new run: start over (blocks of the previous run were dropped in run_reset)
+        if (region && used + need <= region_size) {
+            HugeBlock hb; hb.addr = region + used + 4096 + (g.align8 ? 8 : 0); hb.size = size; hb.serial = ++g.serial; hb.mgr = mgr; hb.live = true;
+            used += need; g_huge.push_back(hb); g.live_blocks++; g.hs.mallocs++;
+            event("m%d %s(%zu) -> blk#%u [sparse]", mgr, what, size, hb.serial);
+            c->in_call = saved_in;
+            return (void*)hb.addr;
+        }
+    }
     if (size > (a.size >> 2) || a.used + size + 2 * rz + 64 > a.size) {
         g.hs.failed++;
         event("m%d %s(%zu) -> NULL [too large]", mgr, what, size);
@@ -334,14 +351,14 @@ void* heap_malloc(int mgr, size_t size, bool zero, const char* what) {
     }
     if (!reused) {
         size_t start = (a.used + 15) & ~(size_t)15;
-        memset(a.shadow + start, perm(0, RS_REDZONE), rz);
-        off = (uint32_t)(start + rz);
+        memset(a.shadow + start, perm(0, RS_REDZONE), rz + (g.align8 ? 8 : 0));
+        off = (uint32_t)(start + rz + (g.align8 ? 8 : 0));
         size_t end = (off + size + 15) & ~(size_t)15;
         memset(a.shadow + off + size, perm(0, RS_REDZONE), end - (off + size) + rz);
         a.used = end + rz;
         if (a.used > a.hwm) a.hwm = a.used;
         // red-zone pattern: the independent check (on free and at the end of the run) for stores the monitor cannot see
-        memset((void*)(a.base + start), 0xFB, rz);
+        memset((void*)(a.base + start), 0xFB, rz + (g.align8 ? 8 : 0));
         memset((void*)(a.base + off + size), 0xFB, end - (off + size) + rz);
     }
     Block b; b.off = off; b.size = (uint32_t)size; b.serial = ++g.serial; b.mgr = (int16_t)mgr;
@@ -363,6 +380,12 @@ void* heap_malloc(int mgr, size_t size, bool zero, const char* what) {
     return res;
 }
 
+std::vector<HugeBlock> g_huge;
+HugeBlock* huge_find(const void* p, bool containing) {
+    uintptr_t a = (uintptr_t)p;
+    for (auto& h : g_huge) if (containing ? (a >= h.addr && a < h.addr + h.size) : a == h.addr) return &h;
+    return nullptr;
+}
 Block* heap_find(const void* p) {
     uintptr_t a = (uintptr_t)p;
     if (a - g_arena[A_HEAP].base >= g_arena[A_HEAP].size) return nullptr;
@@ -423,6 +446,15 @@ void heap_free(int mgr, void* p) {
         c->in_call = saved_in;
         return;
     }
+    if (HugeBlock* hb = huge_find(p, false)) {
+        if (!hb->live) { c->in_call = saved_in; violate(V_DOUBLE_FREE, "second release of sparse blk#" + std::to_string(hb->serial), true); return; }
+        if (hb->mgr != mgr) { c->in_call = saved_in; violate(V_FOREIGN_FREE, "sparse blk#" + std::to_string(hb->serial) + " of manager m" + std::to_string(hb->mgr) + " released through m" + std::to_string(mgr), true); return; }
+        hb->live = false; g.live_blocks--; g.hs.frees++; c->released_total++;
+        madvise((void*)(hb->addr & ~(uintptr_t)4095), (hb->size + 8191) & ~(size_t)4095, MADV_DONTNEED);
+        event("m%d free(blk#%u) [sparse]", mgr, hb->serial);
+        c->in_call = saved_in;
+        return;
+    }
     Block* b = heap_find(p);
     if (!b) {
         c->in_call = saved_in;
@@ -463,6 +495,7 @@ void heap_free(int mgr, void* p) {
 
 int heap_live_count(int mgr, int tag, int op) {
     int n = 0;
+    if (tag < 0 && op < 0) for (auto& h : g_huge) if (h.live && (mgr < 0 || h.mgr == mgr)) n++;
     for (auto& b : g.blocks) if (b.live && (mgr < 0 || b.mgr == mgr) && (tag < 0 || b.tag == tag) && (op < 0 || b.op == op)) n++;
     return n;
 }
@@ -544,6 +577,10 @@ void check_access(uintptr_t a, size_t n, bool store) {
         }
     }
     if (a >= c->stack_lo && a + n <= c->stack_hi) return;
+    if (!g_huge.empty()) if (HugeBlock* hb = huge_find((void*)a, true)) {
+        if (hb->live && a + n <= hb->addr + hb->size) return;
+        c->in_call = false; violate(hb->live ? V_HEAP_OVERFLOW : V_TOUCH_FREED, std::string(store ? "store" : "load") + " at sparse blk#" + std::to_string(hb->serial) + (hb->live ? " beyond its size" : " after its release"), true); c->in_call = true; return;
+    }
     if (a >= g.giant_lo && a + n <= g.giant_hi) { if (!store) return; }
     if (a >= g_errno_addr && a + n <= g_errno_addr + sizeof(int)) return;
     // image?
